@@ -287,6 +287,37 @@ example : SrcOK exSt 0 := by
 
 example : ∀ d0, exSt.dst = some d0 → DstOK exSt 0 d0 := by intro d0 h; cases h
 
+/-- the same document with a used destination: message buffer big enough (array 3), tape buffer too small (array 4),
+    its own `TStrings` (cell 1, array 5) too small -/
+def exHeap2 : Heap :=
+  { arrs := fun i => if i = 0 then [7, 8, 9] else if i = 1 then [1, 2] else if i = 2 then [5, 6, 0, 0]
+      else if i = 3 then [0, 0, 0, 0, 0, 0, 0, 0] else if i = 4 then [4] else if i = 5 then [3] else [],
+    nextA := 6, cells := fun i => if i = 1 then ⟨5, 1, 1⟩ else ⟨2, 2, 4⟩, nextC := 2 }
+
+def exDst : Hdl := { msg := ⟨3, 2, 8⟩, tape := ⟨4, 1, 1⟩, strs := some 1 }
+
+def exSt2 : St := { h := exHeap2, pj := { msg := ⟨0, 3, 3⟩, tape := ⟨1, 2, 2⟩, strs := some 0 }, dst := some exDst }
+
+example : SrcOK exSt2 0 := by
+  constructor <;> first | rfl | (constructor <;> decide) | decide
+
+example : ∀ d0, exSt2.dst = some d0 → DstOK exSt2 0 d0 := by
+  intro d0 h
+  cases h
+  refine ⟨⟨by decide, by decide, by decide⟩, ⟨by decide, by decide, by decide⟩, by decide, by decide, by decide, by decide,
+    by decide, by decide, by decide, ?_⟩
+  intro c0 hc
+  cases hc
+  exact ⟨by decide, by decide, ⟨by decide, by decide, by decide⟩, by decide, by decide, by decide, by decide, by decide⟩
+
+/-- … and on it the regenerated Clone keeps the big-enough message buffer (array 3), takes a fresh tape buffer and a
+    fresh string buffer, and the clone shows the document -/
+theorem used_destination_runs :
+    (execL exSt2 cloneProg).map (fun s1 => (s1.dst.map fun d => [[d.msg.arr], view s1.h d.msg, [d.tape.arr], view s1.h d.tape] ++
+      (match d.strs with | some c' => [[(s1.h.cells c').arr], view s1.h (s1.h.cells c')] | none => []))) =
+      some (some [[3], [7, 8, 9], [6], [1, 2], [7], [5, 6]]) := by
+  decide +kernel
+
 /-- Clone with the string buffer re-sliced from the receiver instead of copied -/
 def sharedProg : List Stmt := [
   .ite .dstNil [.newDst (.mk (.msg .pj)) (.mk (.tape .pj)) (.resl (.strB .pj) (.strB .pj))] [],
